@@ -199,6 +199,13 @@ HistLawsAllCalls ==
      \A c \in Calls(sig, MaxPos, MaxKw, Foreign, StarNames) :
         RedefLaws(Stage(orig, hist, Len(hist) - 1), sig, c)
 
+(* Calls with an indefinite splat f(.., *xs, ..): for every signature state (definition or     *)
+(* re-assigned) and every call shape, longer lists than NPosParams + 1 change nothing, a cause  *)
+(* that does not involve the splat fails every length, and only a *va callee binds every length *)
+SplatLawsHold ==
+  pc = "sig" =>
+     \A c \in Calls(sig, MaxPos, MaxKw, Foreign, StarNames) : SplatLaws(sig, c, 2 * N + 3)
+
 -----------------------------------------------------------------------------
 (* Export: one CASE line per signature (the pc = "sig" states) with every call shape of the   *)
 (* bounds; OnlySigs stops the behaviours there.                                               *)
